@@ -282,16 +282,68 @@ def r18_nothing_is_planted_after_the_methods_went_live(ctx):
                 if any(r in clo for r in reg):
                     fill_idx = i
     ctx.require(fill_idx is not None, f"{build.key}: the statement that files the methods in the table was not found")
+    # locals of the build that hold (collections of) function globals
+    tainted = set()
+
+    def is_tainted(e):
+        return any((isinstance(x, ast.Attribute) and x.attr == "__globals__") or (isinstance(x, ast.Name) and x.id in tainted) for x in ast.walk(e))
+
+    grew = True
+    while grew:
+        grew = False
+        for n in ast.walk(build.node):
+            new_names = set()
+            if isinstance(n, ast.Assign) and is_tainted(n.value):
+                for t in n.targets:
+                    if isinstance(t, ast.Name):
+                        new_names.add(t.id)
+                    elif isinstance(t, ast.Subscript) and isinstance(t.value, ast.Name):
+                        new_names.add(t.value.id)
+            elif isinstance(n, ast.Call) and isinstance(n.func, ast.Attribute) and n.func.attr in ("append", "add", "setdefault", "update") and isinstance(n.func.value, ast.Name) and any(is_tainted(a) for a in n.args):
+                new_names.add(n.func.value.id)
+            elif isinstance(n, (ast.For, ast.comprehension)) and is_tainted(n.iter):
+                new_names |= {x.id for x in ast.walk(n.target) if isinstance(x, ast.Name)}
+            if new_names - tainted:
+                tainted |= new_names
+                grew = True
+
+    def param_stores(f, pname):
+        out = []
+        for n in ast.walk(f.node):
+            if isinstance(n, ast.Subscript) and isinstance(n.ctx, ast.Store) and isinstance(n.value, ast.Name) and n.value.id == pname:
+                out.append(n)
+            elif isinstance(n, ast.Call) and isinstance(n.func, ast.Attribute) and n.func.attr in ("update", "setdefault", "__setitem__") and isinstance(n.func.value, ast.Name) and n.func.value.id == pname:
+                out.append(n)
+        return out
+
     late = []
     for st in body[fill_idx + 1 :]:
         for w in _writes_function_globals(st):
             late.append((st, f"`{short(w, 50)}`"))
         for sub in ast.walk(st):
+            if isinstance(sub, ast.Subscript) and isinstance(sub.ctx, ast.Store) and isinstance(sub.value, ast.Name) and sub.value.id in tainted and not any(sub in list(ast.walk(b_)) for b_ in body[: fill_idx + 1]):
+                late.append((st, f"`{short(sub, 50)}` (a function's globals)"))
             if isinstance(sub, ast.Call):
-                for f in cg.closure(cg.resolve_call(build, sub)):
+                targets = cg.resolve_call(build, sub)
+                for f in cg.closure(targets):
                     ws = _writes_function_globals(f.node)
                     if ws:
                         late.append((st, f"`{short(sub, 40)}` reaches `{short(ws[0], 50)}` in {f.name}()"))
+                # a function's globals handed over as an argument and written through the parameter
+                for f in targets:
+                    fparams = [a.arg for a in f.node.args.posonlyargs + f.node.args.args]
+                    if f.cls is not None and fparams:
+                        fparams = fparams[1:] if not isinstance(sub.func, ast.Name) else fparams
+                    for i, a in enumerate(sub.args):
+                        if i < len(fparams) and is_tainted(a):
+                            ws = param_stores(f, fparams[i])
+                            if ws:
+                                late.append((st, f"`{short(sub, 40)}` hands a function's globals to {f.name}(), which stores `{short(ws[0], 40)}`"))
+                    for k in sub.keywords:
+                        if k.arg and is_tainted(k.value):
+                            ws = param_stores(f, k.arg)
+                            if ws:
+                                late.append((st, f"`{short(sub, 40)}` hands a function's globals to {f.name}(), which stores `{short(ws[0], 40)}`"))
     ctx.ob(
         f"{build.key}:globals-planted-before-filing",
         build.loc(late[0][0]) if late else build.loc(body[fill_idx]),
